@@ -42,11 +42,13 @@ pub mod sched {
   static DEPTH: AtomicU32 = AtomicU32::new(0);
   static MAX_DEPTH: AtomicU32 = AtomicU32::new(1);
   static STUCK: AtomicBool = AtomicBool::new(false);
+  /// u32::MAX: the solver decides at every point; otherwise the (first) actor starts exactly at this point
+  static PREEMPT_AT: AtomicU32 = AtomicU32::new(u32::MAX);
   /// the top-level thread is parked and the scheduler is running the remaining actors
   static IN_PARK: AtomicBool = AtomicBool::new(false);
   static STUCK_IS_BUG: AtomicBool = AtomicBool::new(false);
   static SPINS: AtomicU32 = AtomicU32::new(0);
-  static SPIN_BUDGET: AtomicU32 = AtomicU32::new(2);
+  static SPIN_BUDGET: AtomicU32 = AtomicU32::new(3);
   static SPURIOUS_CAS: AtomicU32 = AtomicU32::new(0);
   static SPURIOUS_UNPARK: AtomicU32 = AtomicU32::new(0);
   static TIMEOUTS_FIRED: AtomicU32 = AtomicU32::new(0);
@@ -91,6 +93,8 @@ pub mod sched {
     DEPTH.store(0, Relaxed);
     MAX_DEPTH.store(max_depth, Relaxed);
     POINTS.store(0, Relaxed);
+    SPINS.store(0, Relaxed);
+    IN_PARK.store(false, Relaxed);
     // (no loop: keeps harness unwind bounds independent of MAX_THREADS)
     STARTED_AT[0].store(u32::MAX, Relaxed);
     STARTED_AT[1].store(u32::MAX, Relaxed);
@@ -102,6 +106,11 @@ pub mod sched {
     ENABLED.store(false, Relaxed);
     ACTORS.store(0, Relaxed);
     STARTED.store(0, Relaxed);
+  }
+  /// Fix the scheduling point at which the next actor starts (harnesses dispatch over this index so
+  /// that every path is a concrete schedule); `u32::MAX` restores the per-point solver choice.
+  pub fn set_preempt_at(p: u32) {
+    PREEMPT_AT.store(p, Relaxed);
   }
   pub fn set_stuck_is_bug(b: bool) {
     STUCK_IS_BUG.store(b, Relaxed);
@@ -168,6 +177,7 @@ pub mod sched {
     h(ActorId(i));
     DEPTH.store(DEPTH.load(Relaxed) - 1, Relaxed);
     CUR.store(prev, Relaxed);
+    SPINS.store(0, Relaxed);
   }
 
   /// A visible synchronisation point of the running logical thread.
@@ -179,8 +189,15 @@ pub mod sched {
     if DEPTH.load(Relaxed) == 0 {
       POINTS.store(POINTS.load(Relaxed) + 1, Relaxed);
     }
-    if DEPTH.load(Relaxed) < MAX_DEPTH.load(Relaxed) && pending() > 0 && choose() {
-      run_one();
+    if DEPTH.load(Relaxed) < MAX_DEPTH.load(Relaxed) && pending() > 0 {
+      let at = PREEMPT_AT.load(Relaxed);
+      if at == u32::MAX {
+        if choose() {
+          run_one();
+        }
+      } else if DEPTH.load(Relaxed) == 0 && POINTS.load(Relaxed) == at + 1 {
+        run_one();
+      }
     }
   }
 
@@ -260,6 +277,21 @@ pub mod sched {
       SPINS.store(n, Relaxed);
       if n > SPIN_BUDGET.load(Relaxed) {
         infeasible();
+      }
+      return;
+    }
+    if PREEMPT_AT.load(Relaxed) != u32::MAX {
+      // fixed-index mode: a yield is an ordinary scheduling point; spinning on past the budget
+      // while an actor is still waiting for its index is the same schedule as an earlier index
+      point();
+      let n = SPINS.load(Relaxed) + 1;
+      SPINS.store(n, Relaxed);
+      if n > SPIN_BUDGET.load(Relaxed) {
+        if DEPTH.load(Relaxed) == 0 && pending() == 0 {
+          stuck();
+        } else {
+          infeasible();
+        }
       }
       return;
     }
